@@ -156,15 +156,18 @@ def native_replay(o=None):
     bad = []
     seqs = [[dict(it=[0], vars=['betax']), dict(it=[0, 2], vars=['betaup3']), dict(it=[2, 4, 6], vars=['betaup3', 'alpha']), dict(it=[0, 2, 4], vars=['betaup3'])],
             # one component cached at an INTERIOR iteration of a later, wider request (then read again from the cache)
-            [dict(it=[6], vars=['betay']), dict(it=[8, 4, 6], vars=['betaup3']), dict(it=[4, 6, 8], vars=['betaup3']), dict(it=[8], vars=['betay'])]]
+            [dict(it=[6], vars=['betay']), dict(it=[8, 4, 6], vars=['betaup3']), dict(it=[4, 6, 8], vars=['betaup3']), dict(it=[8], vars=['betay'])],
+            # every component cached on its own at incomparable sets of iterations, then the tensor (twice)
+            [dict(it=[6, 8], vars=['betax']), dict(it=[10, 12], vars=['betay']), dict(it=[8, 10], vars=['betaz']), dict(it=[6, 8, 10, 12], vars=['betaup3']),
+             dict(it=[6, 8, 10, 12], vars=['alpha', 'betaup3'])]]
     for layout in (('onefile', 'grouped'), ('onefile', 'ungrouped'), ('proc', 'grouped')):
         for seq in seqs:
             root = tempfile.mkdtemp(prefix='c12_')
             try:
-                truth = etgen.make_sim(root, 'sim', layout, restarts=[(0, [0, 2, 4], 0), (1, [4, 6, 8], 1)], shape=(5, 4, 3), cuts=(2, 1, 1),
+                truth = etgen.make_sim(root, 'sim', layout, restarts=[(0, [0, 2, 4], 0), (1, [4, 6, 8, 10, 12], 1)], shape=(5, 4, 3), cuts=(2, 1, 1),
                                        ghost=2, rls=(0,), variables=('alp', 'betax', 'betay', 'betaz'))
                 p = etgen.param_for(root, 'sim')
-                latest_ = {0: 0, 2: 0, 4: 1, 6: 1, 8: 1}
+                latest_ = {0: 0, 2: 0, 4: 1, 6: 1, 8: 1, 10: 1, 12: 1}
                 for qi, req in enumerate(seq):
                     d = aurel.read_data(p, verbose=False, skip_last=False, rl=0, **req)
                     for av in scalars(req['vars']):
@@ -200,6 +203,14 @@ def run(R):
     hb = [[POOL_B[i]] for i in idxb] + [[POOL_B[i], POOL_B[j]] for i, j in itertools.product(idxb, repeat=2)]
     hb += [[POOL_B[a], POOL_B[b], POOL_B[c_]] for a, b, c_ in ((0, 1, 2), (1, 0, 4), (5, 6, 6), (0, 3, 2), (2, 2, 4))]
     jobs += [(h, gflag, 'B') for h in hb for gflag in (False, True)]
+    # longer histories: every component of a tensor cached on its own at incomparable sets of iterations, then the tensor
+    R4 = lambda it_, v_: dict(it=list(it_), vars=list(v_), rl=0)
+    deep_b = [[R4([12, 14], ['betax']), R4([16, 18], ['betay']), R4([14, 16], ['betaz']), R4([12, 14, 16, 18], ['betaup3']), R4([12, 14, 16, 18], ['alpha', 'betaup3'])],
+              [R4([20], ['betaz']), R4([12, 22], ['betax']), R4([14], ['betay']), R4([22, 20, 14, 12], ['betaup3'])],
+              [R4([12, 16], ['gxx']), R4([14, 16], ['gyy']), R4([18], ['gxz']), R4([12, 14, 16, 18], ['gammadown3']), R4([12, 14, 16, 18], ['gammadown3'])]]
+    deep_a = [[R4([0, 2], ['betax']), R4([4, 6], ['betay']), R4([2, 4], ['betaz']), R4([0, 2, 4, 6], ['betaup3']), R4([0, 2, 4, 6], ['alpha', 'betaup3'])],
+              [R4([4], ['gxx']), R4([6], ['gyy']), R4([4, 6, 8], ['gammadown3']), R4([8, 6, 4], ['gammadown3'])]]
+    jobs += [(h, gflag, 'B') for h in deep_b for gflag in (False, True)] + [(h, gflag, 'A') for h in deep_a for gflag in (False, True)]
     t0 = time.time()
     with mp.Pool(14) as pool:
         res = pool.map(run_history, jobs, chunksize=4)
@@ -215,7 +226,7 @@ def run(R):
               '(c) rows are the sorted requested iterations that exist; columns have equal length', '(d) an identical second call returns the same values',
               '(d) ... and takes them from the cache (no ET read)', 'reads do not raise']
     secs = time.time() - t0
-    R.bounded.append(dict(function='read_data with split_per_it (history of calls)', bound=f'{len(jobs)} histories of <= 3 calls from two pools of {len(POOL)} + {len(POOL_B)} requests (up to 8 iterations per request, cached iterations in the interior of a block) x grouped/ungrouped; {total} checks; contents opaque'))
+    R.bounded.append(dict(function='read_data with split_per_it (history of calls)', bound=f'{len(jobs)} histories (<= 3 calls from two pools, plus 4-5 call histories caching every component of a tensor separately) over {len(POOL)} + {len(POOL_B)} requests (up to 8 iterations per request, cached iterations in the interior of a block) x grouped/ungrouped; {total} checks; contents opaque'))
     for lb in labels:
         R.ob(f'reading.read_ET_data[cache]:{lb}', 'read_ET_data', 'refuted' if lb in agg else 'bounded-ok', 'model-histories', secs / len(labels),
              agg.get(lb, ''), [lb] if lb in agg else None, bounded=f'{len(jobs)} histories', replay=native_replay)
